@@ -101,7 +101,12 @@ def minimal(f):
 
 def classify(res, fails):
     known = {k["id"]: k for k in vlib.known_findings(PROP)}
-    for f in fails:
+
+    def simplicity(f):      # shortest reproduction first: whole minutes, whole seconds, small angles
+        r = (f.get("A") or {}).get("r", 0)
+        d = (f.get("A") or {}).get("d", 0)
+        return (r % 60000 != 0, r % 1000 != 0, r % 1800000 != 0, d, r)
+    for f in sorted(fails, key=simplicity):
         dev = f.get("deviation")
         if dev and DEVIATIONS.get(dev) in known:
             res.add_known(DEVIATIONS[dev], known[DEVIATIONS[dev]].get("what", dev))
